@@ -18,7 +18,7 @@ from harness import runs, runcommon, actcorr, modecorr, translate
 from harness.drive import f2b
 
 ID = "C12"
-THEOREM_MODULES = ["JF.Props.C12", "JF.Props.C12Chain", "JF.Props.ModeDiscipline"]
+THEOREM_MODULES = ["JF.Props.C12", "JF.Props.C12Chain", "JF.Props.ModeDiscipline", "JF.Props.SystemInv2"]
 NEEDS_GEN = True
 COMPONENTS = ["comp2"]
 ASSUMPTIONS = [
